@@ -32,6 +32,15 @@ static const Proto kProtos[] = {
 	{"surveyor", nng_surveyor0_open, nng_respondent0_open, true},
 	{"respondent", nng_respondent0_open, nng_surveyor0_open, true},
 	{"bus", nng_bus0_open, nng_bus0_open, false},
+	// raw sockets: user sends / receives wait on the socket-level message queues (a raw send with no peer stays blocked)
+	{"xreq", nng_req0_open_raw, nng_rep0_open, false},
+	{"xrep", nng_rep0_open_raw, nng_req0_open, false},
+	{"xsurveyor", nng_surveyor0_open_raw, nng_respondent0_open, false},
+	{"xrespondent", nng_respondent0_open_raw, nng_surveyor0_open, false},
+	{"xsub", nng_sub0_open_raw, nng_pub0_open, false},
+	{"xbus", nng_bus0_open_raw, nng_bus0_open, false},
+	{"xpair1", nng_pair1_open_raw, nng_pair1_open, false},
+	{"xpush", nng_push0_open_raw, nng_pull0_open, false},
 };
 static const int kNProtos = (int) (sizeof kProtos / sizeof kProtos[0]);
 
@@ -92,6 +101,10 @@ struct World {
 	nng_pipe                pipes[16];
 	int                     npipes = 0;
 	bool                    sock_closed = false; // a close of the socket has RETURNED
+	bool                    sock_closing = false; // a close of the socket has been CALLED
+	int                     slow_rem = 0;         // virtual ms spent in the REM_POST callback
+	std::vector<nng_ctx>    kept_ctxs;            // contexts opened by other threads and not closed by them
+	int                     ctx_opened_during_close = 0;
 	int                     nclose_ok = 0;
 };
 
@@ -116,6 +129,8 @@ pipe_ev(nng_pipe p, nng_pipe_ev ev, void *arg)
 	World *W = (World *) arg;
 	if (ev == NNG_PIPE_EV_ADD_POST && W->npipes < 16)
 		W->pipes[W->npipes++] = p;
+	if (ev == NNG_PIPE_EV_REM_POST && W->slow_rem > 0)
+		vs_sleep(W->slow_rem); // an application callback that takes its time: the socket close in progress has to wait for it
 }
 
 static bool
@@ -134,7 +149,8 @@ thread_main(void *arg)
 	T->t0 = vs_now();
 	switch (T->what) {
 	case 0: // close the socket
-		T->rv = nng_socket_close(W->s);
+		W->sock_closing = true;
+		T->rv           = nng_socket_close(W->s);
 		if (T->rv == 0)
 			W->nclose_ok++;
 		W->sock_closed = true;
@@ -181,6 +197,16 @@ thread_main(void *arg)
 	case 8: { // blocking dial towards the stalling listener
 		nng_dialer d;
 		T->rv = nng_dial(W->s, W->stall_url.c_str(), &d, 0);
+		break;
+	}
+	case 10: { // another thread opens a context and keeps it (an application that is not done with the socket yet)
+		nng_ctx c;
+		T->rv = nng_ctx_open(&c, W->s);
+		if (T->rv == 0) {
+			W->kept_ctxs.push_back(c);
+			if (W->sock_closing)
+				W->ctx_opened_during_close++;
+		}
 		break;
 	}
 	case 9: { // a burst of new operations issued while others close: each must end, none may act on released state
@@ -235,6 +261,12 @@ exec_c10(const vcase *vc)
 	int  tcp_port = 0;
 	H_OK(W.P->open(&W.s));
 	H_OK(nng_pipe_notify(W.s, NNG_PIPE_EV_ADD_POST, pipe_ev, &W));
+	H_OK(nng_pipe_notify(W.s, NNG_PIPE_EV_REM_POST, pipe_ev, &W));
+	W.slow_rem = (int) vop_arg(wo, 3, 0);
+	if (W.slow_rem < 0 || W.slow_rem > 20)
+		W.slow_rem = 0;
+	if (W.slow_rem)
+		vr_tag("slow_rem_post_callback");
 	switch (tr) {
 	case 0: snprintf(buf, sizeof buf, "inproc://c10-%d", (int) getpid()); break;
 	case 1:
@@ -369,7 +401,7 @@ exec_c10(const vcase *vc)
 			T.what   = (int) vop_arg(o, 0, 0);
 			T.at     = (int) vop_arg(o, 1, 0);
 			T.target = (int) vop_arg(o, 2, 0);
-			if (T.what < 0 || T.what > 9 || T.at < 0 || T.at > 100 || T.target < 0)
+			if (T.what < 0 || T.what > 10 || T.at < 0 || T.at > 100 || T.target < 0)
 				continue;
 			if (T.what == 0)
 				sock_close_planned = true;
@@ -480,6 +512,11 @@ exec_c10(const vcase *vc)
 			VR_CHECK(dead_code(rv), "C10:live-handle", "nng_ctx_close on a context of the closed socket -> %d", rv);
 			vr_tag("ctx_handles_checked");
 		}
+		for (auto &cx : W.kept_ctxs) {
+			rv = nng_ctx_close(cx);
+			VR_CHECK(dead_code(rv), "C10:live-handle", "nng_ctx_close on a context another thread had opened on the now closed socket -> %d", rv);
+			vr_tag("kept_ctx_checked");
+		}
 		for (auto &dd : W.dialers) {
 			nng_duration dur;
 			rv = nng_dialer_get_ms(dd, NNG_OPT_RECONNMINT, &dur);
@@ -538,7 +575,7 @@ genLine()
 			o << "pend " << *pbt::welem<int>({{4, 0}, {3, 1}, {3, 2}, {2, 3}, {3, 4}, {3, 5}, {2, 6}, {2, 7}}) << " " << *pbt::range<int>(0, 1);
 		} else {
 			int at = *gen::weightedOneOf<int>({{4, gen::element(0, 1, 2)}, {1, pbt::range<int>(0, 40)}});
-			o << "thr " << *pbt::welem<int>({{5, 0}, {3, 1}, {3, 2}, {2, 3}, {3, 4}, {2, 5}, {3, 6}, {2, 7}, {2, 8}, {3, 9}}) << " " << at << " " << *pbt::range<int>(0, 3);
+			o << "thr " << *pbt::welem<int>({{5, 0}, {3, 1}, {3, 2}, {2, 3}, {3, 4}, {2, 5}, {3, 6}, {2, 7}, {2, 8}, {3, 9}, {3, 10}}) << " " << at << " " << *pbt::range<int>(0, 3);
 		}
 		return o.str();
 	});
@@ -550,7 +587,7 @@ gen_c10()
 	std::ostringstream t;
 	int mode = *pbt::welem<int>({{2, 0}, {3, 1}, {3, 2}, {2, 3}});
 	t << "cfg " << *pbt::range<int>(1, 1000000) << " " << mode << " " << (mode == 3 ? *gen::element(5, 20, 50) : *gen::element(10, 30, 60)) << " " << *pbt::range<int>(0, 3) << " " << (mode == 3 ? *gen::element(60, 150, 400) : 400) << " 0\n";
-	t << "world " << *pbt::range<int>(0, kNProtos - 1) << " " << *pbt::welem<int>({{3, 0}, {2, 1}, {2, 2}}) << " " << *pbt::range<int>(0, 2) << "\n";
+	t << "world " << *pbt::range<int>(0, kNProtos - 1) << " " << *pbt::welem<int>({{3, 0}, {2, 1}, {2, 2}}) << " " << *pbt::range<int>(0, 2) << " " << *pbt::welem<int>({{3, 0}, {1, 1}, {1, 5}}) << "\n";
 	auto lines = *gen::container<std::vector<std::string>>(genLine());
 	for (auto &l : lines)
 		t << l << "\n";
